@@ -611,6 +611,32 @@ def sanitize_nillable(ct, seen, optional=False):
 
     if ct.content is not None:
         walk(ct.content, False)
+    if ct.base is not None and mixed and ct.content is not None:
+        # the elements an extension adds to a mixed base type are bound generically (open finding
+        # C02/global-element-added-by-extension-of-mixed-type...): prefixes used only inside their text or attribute values are
+        # not kept, so nothing QName-valued may sit anywhere below them
+        done = set()
+
+        def strip(t):
+            if not isinstance(t, ComplexT) or id(t) in done:
+                return
+            done.add(id(t))
+            for a in t.attrs:
+                if qname_typed(a.type):
+                    a.type, a.default, a.fixed = SimpleT(None, "string"), None, None
+            if t.simple_base is not None and qname_typed(t.simple_base):
+                t.simple_base = SimpleT(None, "string")
+            if t.content is not None:
+                for x in iter_particles(t.content):
+                    if isinstance(x, ElemDecl):
+                        if qname_typed(x.type):
+                            x.type, x.default, x.fixed = SimpleT(None, "string"), None, None
+                        strip(x.type)
+            strip(t.base)
+
+        for x in iter_particles(ct.content):
+            if isinstance(x, ElemDecl):
+                strip(x.type)
 
 
 def insert_before_any(g: Group, item):
@@ -1031,10 +1057,10 @@ class DocGen:
         hi = min(hi, 3, mn + 2) if hi > mn else mn
         if self.mode == "minimal":
             return mn
+        if self.depth > 4:
+            return mn  # (in every mode: recursive content models otherwise nest a hundred levels deep)
         if self.mode == "maximal":
             return max(hi, mn)
-        if self.depth > 4:
-            return mn
         return rng.randint(mn, max(mn, hi))
 
     def document(self, root: ElemDecl) -> bytes:
@@ -1053,8 +1079,10 @@ class DocGen:
             if decl.nillable and rng.random() < 0.2:
                 el.set(f"{{{XSI}}}nil", "true")
                 return
-            if decl.default is not None and rng.random() < 0.3 and self.empty_defaults:
-                return  # empty element: the default applies
+            if decl.default is not None and rng.random() < 0.3 and self.empty_defaults and not (decl.nillable and decl.max != 1):
+                # empty element: the default applies. (Not for repeating nillable elements: a list field carries no element
+                # default, and an empty value in a nillable field is read as nil - C01's open finding empty-string-in-nillable-field.)
+                return
             if decl.fixed is not None:
                 el.text = decl.fixed
                 return
